@@ -87,6 +87,26 @@ pub fn for_each_satisfaction<FP, FF>(
                     desc.get_satisfaction(&sat)
                 }
             }));
+            // twins of the same operation: Descriptor::satisfy writes the same pair into a TxIn, and
+            // plan()/plan_mall() are into_plan()/into_plan_mall()
+            if !mall {
+                if let Ok(r0) = &r {
+                    let twin = guarded(std::panic::AssertUnwindSafe(|| {
+                        let mut txin = spend.tx.input[spend.idx].clone();
+                        desc.satisfy(&mut txin, &sat).map(|_| (txin.witness.to_vec(), txin.script_sig))
+                    }));
+                    let same = match (&twin, r0) {
+                        (Ok(Ok(a)), Ok(b)) => a.0 == b.0 && a.1 == b.1,
+                        (Ok(Err(_)), Err(_)) => true,
+                        _ => false,
+                    };
+                    if same {
+                        rep.count("satisfy(txin)-equals-get_satisfaction");
+                    } else {
+                        rep.violation(case_idx, format!("{}:satisfy-txin-differs:{:?}", rep.cfg.prop, case.kind), format!("Descriptor::satisfy(&mut txin) and get_satisfaction disagree on {} keys={:#x} pre={:#x} lt={} seq={:#x}: {:?} vs {:?}", case.desc, km, pm, lt, seq, twin.as_ref().map(|x| x.as_ref().map(|y| y.0.len()).map_err(|e| e.to_string())), r0.as_ref().map(|y| y.0.len()).map_err(|e| e.to_string())));
+                    }
+                }
+            }
             handle(
                 world, rep, case_idx, run, "get_satisfaction", mall, r, &spend, &assets, km, pm, lt,
                 seq, &mut on_produced, &mut on_failed,
@@ -99,6 +119,11 @@ pub fn for_each_satisfaction<FP, FF>(
                 } else {
                     desc.clone().into_plan(&sat)
                 };
+                #[allow(deprecated)]
+                let twin = if mall { desc.clone().plan_mall(&sat) } else { desc.clone().plan(&sat) };
+                if plan.is_ok() != twin.is_ok() {
+                    panic!("plan()/plan_mall() and into_plan()/into_plan_mall() disagree on whether a plan exists");
+                }
                 match plan {
                     Ok(p) => p.satisfy(&sat),
                     Err(_) => Err(miniscript::Error::CouldNotSatisfy),
